@@ -3,6 +3,7 @@ package verifsim
 import (
 	"context"
 	"fmt"
+	"time"
 	"math/rand/v2"
 	"strings"
 
@@ -90,6 +91,7 @@ func execDemux(e *Env, pp any) {
 		writeErr error
 		finished bool
 		annEv    int
+		rw       goat.RpcReadWriter
 	}
 	var conns []*connRec
 	// Gated: the first announced connection belongs to the key of the first envelope;
@@ -112,7 +114,7 @@ func execDemux(e *Env, pp any) {
 	dm := goat.NewDemux(dctx, b, func(r *goat.Rpc) string { return r.GetHeader().GetSource() }, func(rw goat.RpcReadWriter) {
 		// runs on a goat goroutine
 		histMu.Lock()
-		cr := &connRec{idx: len(conns)}
+		cr := &connRec{idx: len(conns), rw: rw}
 		conns = append(conns, cr)
 		histMu.Unlock()
 		cr.annEv = e.Log("demux.announce", "", cr.idx, "")
@@ -400,6 +402,32 @@ func execDemux(e *Env, pp any) {
 			if !cr.finished && cancelEv != 0 && cr.annEv < cancelEv && len(cr.read) > 0 && readBefore(e, cr.idx, cancelEv) {
 				e.Violate(prop, "blocked-after-cancel", "demux.go:Cancel", "the consumer of logical connection %d (cancelled key %s) is still blocked in a read or write after settle\n%s", cr.idx, cancelKey, e.WaitGraph())
 			}
+		}
+	}
+	// ... and fail they do, every time: writes on the connection that Cancel ended
+	// (attempted now, long after Cancel returned) are refused, none is accepted
+	if cancelDone && !stopped && cancelEv != 0 {
+		for _, cr := range perKey[cancelKey] {
+			if cr.rw == nil || cr.annEv >= cancelEv {
+				continue
+			}
+			accepted := 0
+			e.Call(fmt.Sprintf("probe.write-after-cancel%d", cr.idx), func() {
+				for i := 0; i < 6; i++ {
+					e.Pt("probe.write")
+					pctx, pcancel := context.WithTimeout(context.Background(), time.Second)
+					err := cr.rw.Write(pctx, &Rpc{Id: uint64(900000 + i), Header: &goatorepo.RequestHeader{Method: "/late/Write", Source: ServerID, Destination: cancelKey}})
+					pcancel()
+					if err == nil {
+						accepted++
+					}
+				}
+			})
+			if accepted > 0 {
+				e.Violate(prop, "write-accepted-after-cancel", "demux.go:connReadWriter", "%d of 6 writes on logical connection %d were accepted although Cancel(%s) had ended it long before", accepted, cr.idx, cancelKey)
+			}
+			e.Note("demux.write-after-cancel-probed")
+			break
 		}
 	}
 	// a key used again after its Cancel returned is a first use again: the
